@@ -14,7 +14,7 @@ from ..engine import Space
 PROPERTY = "C19"
 LEVEL = "model_checking"
 VARIANTS = ["fast", "tsan"]
-RULE = ("sequential: 7 initial configurations x all action sequences of length <=3 (quick) / <=5 (thorough) over 6 actions; states = distinct "
+RULE = ("sequential: 10 initial configurations x all action sequences of length <=3 (quick) / <=5 (thorough) over 6 actions; states = distinct "
         "(runtime state, frame depths/positions) reached, transitions = actions; concurrent: executor start on 3 script kinds x all controller "
         "sequences of <=2 actions over 5 actions, all schedules with <=2 (quick) / <=3 (thorough) preemptions at the hook points; "
         "states = scheduling points visited, transitions = executions (complete schedules)")
@@ -33,10 +33,16 @@ INITS = {
     "nested": ["a = 1;\ncall {\n  b = 2;\n  call {\n    c = 3;\n    d = 4\n  };\n  e = 5\n};\nf = 6"],
     "erroring": ['a = 1;\nb = 1 + "x";\nc = 3'],
     "two-scripts": ["a = 1;\nb = 2", "c = 3;\nd = 4"],
+    # halted (by 9 assembly steps) inside a block from which one step pops two frames at once: the block is the last
+    # statement of the called function / an exitWith block; and a block followed by another statement as control
+    "in-tail-block": ["call { a = 1; if (true) then { b = 2; c = 3 } };\nz = 9"],
+    "in-exitwith-block": ["call { a = 1; if (true) exitWith { b = 2; c = 3 }; y = 8 };\nz = 9"],
+    "in-inner-block": ["call { a = 1; if (true) then { b = 2; c = 3 }; y = 8 };\nz = 9"],
     "finished": ["a = 1"],       # plus an initial start
     "failed": ['a = 1 + "x"'],   # plus an initial start
 }
-PRE = {"finished": ["start"], "failed": ["start"]}
+PRE = {"finished": ["start"], "failed": ["start"], "in-tail-block": ["assembly_step"] * 9, "in-exitwith-block": ["assembly_step"] * 9,
+       "in-inner-block": ["assembly_step"] * 9}
 RES = {"invalid": -2, "empty": -1, "ok": 0, "action_error": 1, "runtime_error": 2}
 
 
@@ -130,6 +136,25 @@ def check_seq(ws, case):
         elif a == "leave_scope":
             if has_script and rc == RES["ok"] and after["contexts"] and depth(after) >= depth(before) and depth(before) > 1:
                 return viol("leave-scope-depth", "leave scope returned with frame depth %d (before %d)" % (depth(after), depth(before)))
+            if has_script and before["state"] != "halted_error":
+                # differential oracle: leave scope = assembly steps until the frame depth is below the one it started at for the
+                # first time (or the script is over) - assembly step has its own exact oracle (one instruction)
+                d0 = depth(before)
+                ref = steps[:first + i] + [{"op": "exec", "id": 0, "action": "assembly_step", "detail": True} for _ in range(60)]
+                r2 = ws.call({"mode": "steps", "fork": True, "timeout_ms": 15000, "clock": {"tick_us": 1}, "steps": ref}, variant="fast")
+                if r2["outcome"] == "ok":
+                    n_ref, vm_ref, acc = None, None, 0
+                    for k, s2 in enumerate(r2["result"]["steps"][first + i:]):
+                        v2 = s2["vm"]
+                        acc += s2["instr"]
+                        if s2["r"] not in (RES["ok"],) or not v2["contexts"] or depth(v2) < d0 or len(v2["contexts"]) != len(before["contexts"]):
+                            n_ref, vm_ref = acc, v2
+                            break
+                    if n_ref is not None and len(before["contexts"]) == 1 and rc in (RES["ok"], RES["empty"]):
+                        shape = lambda v: [(c["frames"], [f["pos"] for f in c["frame_list"]]) for c in v["contexts"]]
+                        if st["instr"] != n_ref or shape(after) != shape(vm_ref):
+                            return viol("leave-scope-overruns-or-stops-early", "leave scope from depth %d executed %d instructions and ended at %r; stepping leaves the scope after %d instructions at %r" % (
+                                d0, st["instr"], shape(after), n_ref, shape(vm_ref)))
         elif a == "start":
             if has_script:
                 if rc not in (RES["empty"], RES["ok"], RES["runtime_error"]):
